@@ -77,6 +77,7 @@ macro "kstep_auto" : tactic => `(tactic| (
 /-- Every atomic segment changes the kernel by (at most) one kernel operation. -/
 theorem astep_kstep {s s' : Sys} {a : Act} (h : astep s a = some s') : KStep s.k s'.k := by
   cases a <;> simp only [astep] at h
+  case config big => cases h; exact KStep.refl _
   case cmdBegin th c => simp only [stepCmdBegin] at h; kstep_auto
   case bound th => simp only [stepBound] at h; kstep_auto
   case pin th => simp only [stepPin] at h; kstep_auto
